@@ -13,7 +13,9 @@ const NS: usize = 3;     // base states per layer
 const ND: usize = 2;     // decisions per variable
 
 #[derive(Clone, Debug)]
-pub struct Table { pub layers: usize, pub init: isize, pub trans: Vec<Vec<Vec<Option<(usize, isize)>>>>, pub rub_slack: Option<isize> }
+pub struct Table { pub layers: usize, pub init: isize, pub trans: Vec<Vec<Vec<Option<(usize, isize)>>>>, pub rub_slack: Option<isize>,
+                   /// when set, the rough upper bound is tight (slack rub_slack) on even layers only and loose (slack + 6) on odd layers: valid but non-monotone
+                   pub rub_even_only: bool }
 
 #[derive(Clone, Copy, Debug, PartialEq, Eq, Hash)]
 pub struct TS { pub depth: usize, pub set: u8 }
@@ -34,7 +36,8 @@ impl Table {
             trans.push(l);
         }
         let rub_slack = match r.next(3) { 0 => None, 1 => Some(0), _ => Some(r.next(4) as isize) };
-        Table { layers, init: r.next(5) as isize - 1, trans, rub_slack }
+        let rub_even_only = rub_slack.is_some() && r.next(2) == 0;
+        Table { layers, init: r.next(5) as isize - 1, trans, rub_slack, rub_even_only }
     }
     /// exact value-to-go of base state s at layer l (None = dead end)
     pub fn hstar(&self, l: usize, s: usize) -> Option<isize> {
@@ -81,6 +84,7 @@ impl Relaxation for TRelax<'_> {
     fn relax(&self, _s: &TS, _d: &TS, _m: &TS, _dec: Decision, cost: isize) -> isize { cost }
     fn fast_upper_bound(&self, st: &TS) -> isize {
         match self.t.rub_slack { None => isize::MAX, Some(k) => {
+            let k = if self.t.rub_even_only && st.depth % 2 == 1 { k + 6 } else { k };
             let mut b = isize::MIN;
             for s in 0..NS { if st.set >> s & 1 == 1 { if let Some(h) = self.t.hstar(st.depth, s) { b = b.max(h + k); } } }
             b } }
